@@ -293,6 +293,45 @@ def forwarding(ctx, rep):
     rep.check(ok, 'R4', 'preprocessor-arg', pp[0].where() if pp else bw, 'preprocessor(<path of the temporary copy>) when configured', 'the preprocessor is not invoked on the temporary copy of the app')
     cp = by.get('FN:copy_app', [])
     rep.check(len(cp) == 1 and bool(cp[0].args) and cfg.within(cp[0].args[0]) == 'app_dir', 'R4', 'copy-source', bw, 'the copy is made from the configured fixture', 'copy_app source is not config.app_dir')
+    # the private copy lives in a temporary directory that is deleted when its owner is dropped: on every normal path
+    # the value returned by copy_app (or what it was moved into) must be dropped only after pack has run
+    if len(cp) == 1 and run:
+        def holders_of(cfn, start):
+            hs, work = set(), [start]
+            while work:
+                l = work.pop()
+                if l in hs:
+                    continue
+                hs.add(l)
+                for b in cfn.blocks:
+                    for st in b['s']:
+                        if st[0] == '=' and len(st[1]) == 1 and st[2]['r'] == 'use' and 'm' in st[2]['o'] and st[2]['o']['m'][0] == l:
+                            work.append(st[1][0])
+                for c in cfn.calls:
+                    if c.dest and len(c.dest) == 1 and c.args and isinstance(c.args[0], dict) and 'm' in c.args[0] and c.args[0]['m'][0] == l \
+                            and len(c.args[0]['m']) == 1 and (c.name or '').endswith(('::expect', '::unwrap', '::into', '::from')) and 'AppDir' in (c.dty or ''):
+                        work.append(c.dest[0])
+            return hs
+        levels = [l.call if hasattr(l, 'call') else l for l in cp[0].chain] + [cp[0].call]     # outermost .. copy_app call
+        early, alive = [], False
+        for lv in reversed(levels):
+            cfn = lv.fn
+            if not (lv.dest and len(lv.dest) == 1):
+                break
+            hs = holders_of(cfn, lv.dest[0])
+            normal = cfn.reachable(0)
+            run_bbs = {(x.chain[0] if x.chain else x.call).bb for x in run if (x.chain[0] if x.chain else x.call).fn.path == cfn.path}
+            for bi_, b in enumerate(cfn.blocks):
+                t = b['t']
+                if t['t'] == 'drop' and bi_ in normal and t['p'][0] in hs and len(t['p']) == 1:
+                    if run_bbs and not (run_bbs & cfn.reachable(bi_)):
+                        alive = True        # dropped after pack ran
+                    else:
+                        early.append('%s in %s' % (cfn.local_name(t['p'][0]) or '_%d' % t['p'][0], cfn.path.split('::')[-1]))
+            if 0 not in hs:
+                break       # not handed to the caller: this level decides
+        rep.check(alive and not early, 'R4', 'copy-alive', cp[0].where(), 'the temporary copy is kept until pack has run',
+                  'the temporary app copy is dropped (its directory deleted) before pack runs: %s' % (early or 'no owner of the copy outlives the pack run'))
     # env
     envc = by.get('PACK:env', [])
     ok, why = _elementwise(E, sl, envc, cfg, 'env', run, 2)
